@@ -242,21 +242,33 @@ func raceSigs(stderr string) []string {
 			b = b[:i]
 		}
 		var frames []string
+		harness := false
 		for _, part := range strings.Split(b, "\n\n") {
 			if !(strings.Contains(part, " by goroutine") || strings.Contains(part, "by main goroutine")) || strings.HasPrefix(strings.TrimSpace(part), "Goroutine") {
 				continue
 			}
 			for _, l := range strings.Split(part, "\n") {
 				l = strings.TrimSpace(l)
-				if strings.HasPrefix(l, "github.com/internetarchive/Zeno/") && !strings.Contains(l, "Zeno/internal/verif/") && !strings.Contains(l, "Zeno/internal/pkg/verifhook") {
-					f := strings.TrimPrefix(l, "github.com/internetarchive/Zeno/")
-					if i := strings.Index(f, "("); i > 0 {
-						f = f[:i]
-					}
-					frames = append(frames, f)
+				if !strings.HasPrefix(l, "github.com/internetarchive/Zeno/") {
+					continue
+				}
+				if strings.Contains(l, "Zeno/internal/verif/") {
+					harness = true // the innermost module frame of this access is harness code
 					break
 				}
+				if strings.Contains(l, "Zeno/internal/pkg/verifhook") {
+					continue
+				}
+				f := strings.TrimPrefix(l, "github.com/internetarchive/Zeno/")
+				if i := strings.LastIndex(f, "("); i > 0 && strings.HasSuffix(f, ")") {
+					f = f[:i]
+				}
+				frames = append(frames, f)
+				break
 			}
+		}
+		if harness {
+			frames = nil
 		}
 		if len(frames) == 0 {
 			sigs = append(sigs, "harness-only")
